@@ -26,8 +26,11 @@ Neg(a) == [k \in DOMAIN a |-> -a[k]]
 (* bonds are stored 1-based: bond b (0..L) is qD[b + 1] *)
 Bond(b) == qD[b + 1]
 
-TBegin == /\ HasRec /\ Rec.ev = "begin" /\ pc = "none"
+(* A trace is a history of calls on one object: a later call starts from the charges the previous one left behind;  *)
+(* between two calls the user may overwrite site tensors (event "poke"), which changes no charge.                   *)
+TBegin == /\ HasRec /\ Rec.ev = "begin" /\ pc \in {"none", "done"}
           /\ Len(Rec.qD) = Rec.L + 1 /\ Rec.L >= 1
+          /\ (pc = "done" /\ meta.L > 0) => (Rec.qD = qD /\ Rec.L = meta.L /\ Rec.cls = meta.cls /\ Rec.phys = meta.phys)
           /\ meta' = [L |-> Rec.L, op |-> Rec.op, mode |-> Rec.mode, phys |-> Rec.phys, cls |-> Rec.cls, qD0 |-> Rec.qD]
           /\ qD' = Rec.qD
           /\ pc' = IF Rec.op = "ortho" THEN "sweep" ELSE "pre"
@@ -77,7 +80,7 @@ TEnd == /\ HasRec /\ Rec.ev = "end" /\ pc \in {"swept", "sweep"}
         /\ Rec.neighbour_ok
         /\ meta.op = "compress" => (Rec.scale_ok /\ Rec.err_ok)
         /\ ExactOK
-        /\ pc' = "done" /\ UNCHANGED <<qD, pos, zero, meta, nsteps>> /\ Advance
+        /\ pc' = "done" /\ qD' = Rec.qD /\ UNCHANGED <<pos, zero, meta, nsteps>> /\ Advance
 
 (* C13: the first truncated bond keeps exactly the Schmidt values prescribed by the tolerance rule (exact instances) *)
 TFirstBond == /\ HasRec /\ Rec.ev = "firstbond" /\ pc = "done"
@@ -89,7 +92,11 @@ TFromVector == /\ HasRec /\ Rec.ev = "from_vector" /\ pc = "none"
                /\ Rec.err_ok /\ Rec.types_ok /\ Rec.shapes_ok /\ Rec.exact_ok /\ Rec.input_unchanged
                /\ pc' = "done" /\ UNCHANGED <<qD, pos, zero, meta, nsteps>> /\ Advance
 
-TStep2 == TBegin \/ TStep \/ TEnd \/ TFirstBond \/ TFromVector
+TPoke == /\ HasRec /\ Rec.ev = "poke" /\ pc = "done" /\ meta.L > 0
+         /\ Rec.site \in 1..meta.L
+         /\ UNCHANGED <<qD, pos, pc, zero, meta, nsteps>> /\ Advance
+
+TStep2 == TBegin \/ TStep \/ TEnd \/ TFirstBond \/ TFromVector \/ TPoke
 TNextTrace == /\ tid <= Len(Tr) /\ l > Len(Tr[tid]) /\ pc = "done"
               /\ TLCSet(1, TLCGet(1) \cup {tid})
               /\ tid' = tid + 1 /\ l' = 1 /\ Blank
@@ -102,7 +109,8 @@ Diagnose ==
          ELSE IF ~(Rec.iso_ok /\ Rec.sparse_ok /\ Rec.pair_ok) THEN "local step: isometry / sparsity / two-site product flag false"
          ELSE "new bond charges exceed the block-wise prediction (or differ from it for QR)")
     ELSE IF Rec.ev = "end" THEN
-        (IF pc = "swept" /\ Rec.qD # qD THEN "bond charges of the object differ from those of the local factorizations"
+        (IF pc = "sweep" /\ ~(Rec.hooks_missing /\ nsteps = 0) THEN "call returned before its sweep over the sites was complete"
+         ELSE IF pc = "swept" /\ Rec.qD # qD THEN "bond charges of the object differ from those of the local factorizations"
          ELSE IF ~(\A b \in 1..(meta.L + 1) : Len(Rec.qD[b]) = Rec.dims[b]) THEN "length of a charge list differs from the bond dimension"
          ELSE IF ~(\A b \in 1..(meta.L + 1) : Rec.dims[b] <= Len(meta.qD0[b])) THEN "a bond dimension grew"
          ELSE IF ~Rec.is_zero /\ ~(Rec.qD[1] = meta.qD0[1] /\ Rec.qD[meta.L + 1] = meta.qD0[meta.L + 1]) THEN "total charge of a non-zero state changed"
@@ -117,6 +125,7 @@ Diagnose ==
          ELSE IF meta.op = "compress" /\ ~(Rec.scale_ok /\ Rec.err_ok) THEN "compress: scale outside [sqrt(1-L tol), 1] or error identity violated"
          ELSE IF ~ExactOK THEN "exact instance: nrm^2 # ||v||^2 or nrm * new # old"
          ELSE "zero-state bookkeeping")
+    ELSE IF Rec.ev = "begin" THEN "a later call does not start from the charges / shape the previous call left behind"
     ELSE IF Rec.ev = "firstbond" THEN "first truncated bond does not keep the Schmidt values prescribed by the tolerance rule"
     ELSE IF Rec.ev = "from_vector" THEN "from_vector: error bound / types / shapes / exactness at tol = 0"
     ELSE "unexpected event"
